@@ -155,7 +155,15 @@ impl fmt::Display for KNumber {
 
 impl Hash for KNumber {
     fn hash<H: Hasher>(&self, state: &mut H) {
-        state.write_u64(self.to_bits())
+        // Numbers that compare as equal need to produce the same hash.
+        // Integers are compared with floats by converting them to f64 (see `PartialEq`),
+        // so the hash is derived from the number's f64 value, with -0.0 hashed as 0.0.
+        let n = match *self {
+            Self::F64(n) => n,
+            Self::I64(n) => n as f64,
+        };
+        let n = if n == 0.0 { 0.0 } else { n };
+        state.write_u64(n.to_bits())
     }
 }
 
